@@ -1078,6 +1078,182 @@ def import_normal_form(repo, known, rebuild):
     return notes
 
 
+# ---------------------------------------------------------------------------------------------------------------------
+# rename normal form
+
+
+class _RenameIdent(ast.NodeTransformer):
+    """Rename an identifier wherever it names a function / method / attribute (definitions, references, from-imports)."""
+
+    def __init__(self, mapping, attrs_only=False):
+        self.m, self.count, self.attrs_only = mapping, 0, attrs_only
+
+    def visit_FunctionDef(self, node):
+        self.generic_visit(node)
+        if not self.attrs_only and node.name in self.m:
+            node.name = self.m[node.name]
+            self.count += 1
+        return node
+    visit_AsyncFunctionDef = visit_FunctionDef
+
+    def visit_Name(self, node):
+        if not self.attrs_only and node.id in self.m:
+            node.id = self.m[node.id]
+            self.count += 1
+        return node
+
+    def visit_Attribute(self, node):
+        self.generic_visit(node)
+        if node.attr in self.m:
+            node.attr = self.m[node.attr]
+            self.count += 1
+        return node
+
+    def visit_ImportFrom(self, node):
+        if not self.attrs_only:
+            for a in node.names:
+                if a.name in self.m:
+                    if a.asname is None or a.asname == a.name:
+                        a.asname = None
+                    a.name = self.m[a.name]
+                    self.count += 1
+        return node
+
+
+def _ref_names(node):
+    out = set()
+    for x in ast.walk(node):
+        if isinstance(x, ast.Name):
+            out.add(x.id)
+        elif isinstance(x, ast.Attribute):
+            out.add(x.attr)
+    return out
+
+
+def rename_normal_form(repo, known, rebuild):
+    """A function / method / instance attribute of the reference table that is gone while an unlisted one took its place
+    (same scope, same arity, referenced by the functions that used to reference the old one; for attributes: stored by the
+    same methods) is a renaming: it is spelled back.  Only unambiguous pairings are applied."""
+    notes = []
+    kf = set(known.get("functions", ()))
+    refs, arity = known.get("refs", {}), known.get("arity", {})
+    if not refs:
+        return notes
+    current = {}
+    for m in repo.modules.values():
+        for f in m.all_functions():
+            current[f.key] = f
+
+    def scope(key):
+        rel, q = key.split("::")
+        return rel, (q.rsplit(".", 1)[0] if "." in q else "")
+
+    def short(key):
+        return key.split("::")[1].split(".")[-1]
+    missing = [k for k in sorted(kf) if k not in current and k.split("::")[0] in repo.modules]
+    mapping = {}
+    if missing:
+        cur_refs = {k: _ref_names(f.node) for k, f in current.items()}
+        all_names = set()
+        for names in cur_refs.values():
+            all_names |= names
+        for m in repo.modules.values():
+            all_names |= {n for n in _ref_names(m.tree)}
+        by_scope = {}
+        for k in missing:
+            by_scope.setdefault(scope(k), []).append(k)
+        votes = {}     # new short name -> {old short name: count}
+        for sc, ks in sorted(by_scope.items()):
+            rel, cq = sc
+            if cq and ("%s::%s" % (rel, cq)) not in known.get("class_attrs", {}) and ("%s::%s" % (rel, cq)) not in kf:
+                continue
+            cands = [f for k, f in current.items() if scope(k) == sc and k not in kf]
+            triples = []
+            for K in ks:
+                kname = short(K)
+                if kname in all_names:
+                    continue       # the old name is still in use somewhere: not (only) a renaming
+                rc = [c for c in refs.get(K, []) if c in current]
+                for U in cands:
+                    if len(U.params) != arity.get(K, -1):
+                        continue
+                    hits = sum(1 for c in rc if U.name in cur_refs[c])
+                    if rc and hits == 0:
+                        continue
+                    triples.append((hits, K, U))
+            triples.sort(key=lambda t: (-t[0], t[1], t[2].key))
+            usedK, usedU = set(), set()
+            for i, (hits, K, U) in enumerate(triples):
+                if K in usedK or U.key in usedU:
+                    continue
+                rivals = [t for t in triples if t is not triples[i] and t[0] == hits and (t[1] == K or t[2].key == U.key) and t[1] not in usedK and t[2].key not in usedU]
+                if rivals:
+                    continue       # ambiguous
+                usedK.add(K)
+                usedU.add(U.key)
+                votes.setdefault(U.name, {}).setdefault(short(K), 0)
+                votes[U.name][short(K)] += 1
+        for new, olds in votes.items():
+            if len(olds) != 1:
+                continue
+            old = next(iter(olds))
+            # every function now called `new` must be one of the paired ones (else the name means something else as well)
+            n_named = sum(1 for f in current.values() if f.name == new)
+            if n_named == olds[old] and old not in mapping.values():
+                mapping[new] = old
+    if mapping:
+        changed = set()
+        for rel, m in repo.modules.items():
+            tr = _RenameIdent(mapping)
+            tr.visit(m.tree)
+            if tr.count:
+                changed.add(rel)
+        for rel in changed:
+            ast.fix_missing_locations(repo.modules[rel].tree)
+        rebuild(repo, changed)
+        for new, old in sorted(mapping.items()):
+            notes.append("function %s is the reference tree's %s under another name: spelled back" % (new, old))
+
+    # ---- instance attributes
+    inst = known.get("instance_attrs", {})
+    amap = {}
+    fn_names = {f.name for m in repo.modules.values() for f in m.all_functions()}
+    stored_everywhere = {}
+    for rel, m in repo.modules.items():
+        for cn, ci in m.classes.items():
+            for f in ci.methods.values():
+                for x in ast.walk(f.node):
+                    if isinstance(x, ast.Attribute) and isinstance(x.ctx, ast.Store) and isinstance(x.value, ast.Name) and x.value.id == "self":
+                        stored_everywhere.setdefault(x.attr, set()).add(("%s::%s" % (rel, cn), f.name))
+    all_attr_names = set()
+    for m in repo.modules.values():
+        all_attr_names |= _ref_names(m.tree)
+    for ck, ref_attrs in sorted(inst.items()):
+        rel, cn = ck.split("::")
+        m = repo.modules.get(rel)
+        if m is None or cn not in m.classes:
+            continue
+        cur = {a for a, sites in stored_everywhere.items() if any(c == ck for c, _ in sites)}
+        gone = [a for a in ref_attrs if a not in cur and a not in all_attr_names]
+        fresh = [a for a in sorted(cur) if a not in ref_attrs and a not in fn_names and not any(a in v for v in inst.values())]
+        if len(gone) == 1 and len(fresh) == 1:
+            amap.setdefault(fresh[0], set()).add(gone[0])
+    amap = {k: next(iter(v)) for k, v in amap.items() if len(v) == 1}
+    if amap:
+        changed = set()
+        for rel, m in repo.modules.items():
+            tr = _RenameIdent(amap, attrs_only=True)
+            tr.visit(m.tree)
+            if tr.count:
+                changed.add(rel)
+        for rel in changed:
+            ast.fix_missing_locations(repo.modules[rel].tree)
+        rebuild(repo, changed)
+        for new, old in sorted(amap.items()):
+            notes.append("instance attribute %s is the reference tree's %s under another name: spelled back" % (new, old))
+    return notes
+
+
 def normalize(repo, rebuild):
     """Expand unknown helpers/constants in `repo` (a raw Repo).  `rebuild(repo, rels)` re-indexes the changed modules.
 
@@ -1085,6 +1261,7 @@ def normalize(repo, rebuild):
     known = load_known()
     notes = []
     changed = set()
+    notes += rename_normal_form(repo, known, rebuild)
     notes += import_normal_form(repo, known, rebuild)
 
     # -- constants ----------------------------------------------------------------------------------------------------
